@@ -847,11 +847,13 @@ func UniformityP(qs []float64) float64 {
 
 func UniformityFromCounts(F []int64, s int) float64 {
 	// V = (10*sum F^2 - s^2)/s exactly
-	var ss int64
+	// exact in arbitrary precision (10*sum F^2 exceeds 2^63 for lists of about 10^9 values)
+	ss := new(big.Int)
 	for _, f := range F {
-		ss += f * f
+		ss.Add(ss, new(big.Int).Mul(big.NewInt(f), big.NewInt(f)))
 	}
-	num := new(big.Int).SetInt64(10*ss - int64(s)*int64(s))
+	num := new(big.Int).Mul(ss, big.NewInt(10))
+	num.Sub(num, new(big.Int).Mul(big.NewInt(int64(s)), big.NewInt(int64(s))))
 	v, _ := new(big.Float).Quo(new(big.Float).SetPrec(prec).SetInt(num), bf(float64(s))).Float64()
 	return Q2(9, v/2)
 }
